@@ -271,8 +271,8 @@ def strat_bands(draw, tier):
     cps_opts = [k for k in range(2, nchans + 1) if (k * nbits) % 8 == 0]
     if not cps_opts:
         cps_opts = [nchans]
-    cps = draw(st.sampled_from(cps_opts))
-    nb = draw(st.integers(1, nchans // cps))
+    cps = draw(st.sampled_from(cps_opts[:2] + cps_opts))
+    nb = draw(st.one_of(st.just(nchans // cps), st.integers(1, nchans // cps)))
     nsel = nb * cps
     chanstart = draw(st.integers(0, nchans - nsel))
     c.update({"chanstart": chanstart, "nsel": nsel, "cps": cps, "batch": draw(st.sampled_from([1, 2, 200]))})
@@ -301,6 +301,8 @@ def check_bands(case, ctx):
         nby = s.eff * cps * s.nbits // 8
         require(open(a, "rb").read()[-nby:] == open(b, "rb").read()[-nby:] or nby == 0, "extract_bands:gulp-dependent", s.ctxt)
     lab = s.labels + (["chanstart>0"] if cs else []) + (["partial_band_selection"] if cs + nsel < s.nchans else [])
+    if nsel // cps > case["batch"]:
+        lab = lab + ["multi_batch"]
     return Info(s.multi, tuple(lab))
 
 
